@@ -4,4 +4,4 @@ pub mod par;
 pub mod run;
 pub mod seqs;
 
-pub use run::{bytes_from_json, bytes_json, guard, hex, unhex, Run, Tally, Tier, Violation};
+pub use run::{bytes_from_json, bytes_json, bytes_json_rle, guard, hex, unhex, Run, Tally, Tier, Violation};
